@@ -51,6 +51,12 @@ type conf struct {
 	// takes filter0Ms for caller 0; caller i starts startMs[i] after the beginning
 	filter0Ms int
 	startMs   []int
+	// postFilters legacy post-client filters that observe the call and return nil
+	postFilters int
+	// extra "split": the reply to caller 0 carries, as payload, a complete response frame that names caller 1's
+	// request id; it is sent in two pieces, the second starting at that embedded frame, gapMs apart (longer than
+	// the client's read timeout); the genuine reply to caller 1 follows
+	gapMs int
 	// extra "cut": the connection of caller 0 ends after 12 bytes of its reply; caller 1 starts 1.5 s later,
 	// forces the reconnect and is answered in full on the new connection
 }
@@ -84,6 +90,11 @@ func scenario(c conf) *vm.Scenario {
 				if len(msg.Req.SBuffer) == 2 && byte(msg.Req.SBuffer[0]) == 0xA0 {
 					vm.Sleep(int64(c.filter0Ms) * 1e6)
 				}
+				return nil
+			})
+		}
+		for k := 0; k < c.postFilters; k++ {
+			tars.RegisterPostClientFilter(func(ctx context.Context, msg *tars.Message, invoke tars.Invoke, timeout time.Duration) error {
 				return nil
 			})
 		}
@@ -129,7 +140,11 @@ func scenario(c conf) *vm.Scenario {
 						for k, v := range resp.SBuffer {
 							b[k] = byte(v)
 						}
-						vm.Log("caller %d ok id=%d payload=%x t=%dms", i, resp.IRequestId, b, (vm.Now()-start)/1e6)
+						if len(b) == 0 {
+							vm.Log("caller %d returned success with an empty response id=%d", i, resp.IRequestId)
+						} else {
+							vm.Log("caller %d ok id=%d payload=%x t=%dms", i, resp.IRequestId, b, (vm.Now()-start)/1e6)
+						}
 					case strings.Contains(err.Error(), "request timeout"):
 						vm.Log("caller %d timeout t=%dms", i, (vm.Now()-start)/1e6)
 					default:
@@ -231,6 +246,32 @@ func server(c conf, ln vnet.Listener, start int64) {
 		conns[r.q] = r.conn
 	}
 	conn := conns[reqs[0]]
+	if c.extra == "split" {
+		var q0, q1 *tnet.Request
+		for _, q := range reqs {
+			if len(q.Buffer) == 2 && q.Buffer[1] == 0 {
+				q0 = q
+			} else {
+				q1 = q
+			}
+		}
+		forged := (&tnet.Response{Version: q1.Version, PacketType: 0, ID: q1.ID, Buffer: []byte{0xEE, 0xEE}, Status: map[string]string{}}).Encode()
+		body := append(append([]byte{}, q0.Buffer...), forged...)
+		pkt := (&tnet.Response{Version: q0.Version, PacketType: 0, ID: q0.ID, Buffer: body, Status: map[string]string{}}).Encode()
+		at := strings.Index(string(pkt), string(forged))
+		if at < 0 {
+			panic("split: embedded frame not found")
+		}
+		vm.Log("split want0=%x", body)
+		conns[q0].Write(pkt[:at])
+		vm.Sleep(int64(c.gapMs) * 1e6)
+		conns[q0].Write(pkt[at:])
+		vm.Log("server replied id=%d in two pieces", q0.ID)
+		vm.Sleep(int64(20 * time.Millisecond))
+		conns[q1].Write((&tnet.Response{Version: q1.Version, PacketType: 0, ID: q1.ID, Buffer: q1.Buffer, Status: map[string]string{}}).Encode())
+		vm.Log("server replied id=%d", q1.ID)
+		return
+	}
 	// identify caller 0's request by payload
 	order := make([]int, len(reqs))
 	for i := range order {
@@ -318,15 +359,29 @@ func check(c conf, r *vm.Result) string {
 		}
 	}
 	seen := 0
+	want0 := ""
 	for _, o := range r.Obs {
 		var i, id, t int
 		var pl string
+		if n, _ := fmt.Sscanf(o, "split want0=%s", &pl); n == 1 {
+			want0 = pl
+			continue
+		}
+		if n, _ := fmt.Sscanf(o, "caller %d returned success with an empty response id=%d", &i, &id); n == 2 {
+			seen++
+			msgs = append(msgs, "call-returned-success-without-a-response")
+			continue
+		}
 		if n, _ := fmt.Sscanf(o, "caller %d ok id=%d payload=%s t=%dms", &i, &id, &pl, &t); n == 4 {
 			seen++
 			want := fmt.Sprintf("%x", []byte{0xA0 + byte(i), byte(i)})
+			sent := want
+			if i == 0 && want0 != "" {
+				want = want0
+			}
 			if pl != want {
 				msgs = append(msgs, fmt.Sprintf("caller-received-response-of-another-call\ncaller %d got payload %s want %s", i, pl, want))
-			} else if idOf[pl] != fmt.Sprint(id) {
+			} else if idOf[sent] != fmt.Sprint(id) {
 				msgs = append(msgs, "response-id-differs-from-request-id")
 			}
 			if i == 0 && c.delay0 == "after" {
@@ -523,6 +578,17 @@ func main() {
 	// caller 0 draws its id, spends 50 ms in a client filter while two others get in flight, is refused; a fourth call follows
 	add(conf{name: "slow client filter, refused call, ObjQueueMax=1", callers: 4, timeout: 300, quiet: true, objMax: 1, eachMs: 100, filter0Ms: 50, startMs: []int{0, 10, 40, 115}}, 1, false)
 	add(conf{name: "slow client filter, refused call, ObjQueueMax=2", callers: 5, timeout: 300, quiet: true, objMax: 2, eachMs: 100, filter0Ms: 50, startMs: []int{0, 10, 20, 40, 125}}, 0, false)
+	// observing post-client filters (legacy registration) must not change the outcome of a call that timed out
+	for _, d := range []string{"before", "after"} {
+		for _, k := range []int{1, 2} {
+			add(conf{name: fmt.Sprintf("2 callers reply0 %s deadline, %d observing post filters", d, k), callers: 2, timeout: 300, quiet: true, delay0: d, postFilters: k}, 1, false)
+		}
+	}
+	// a response arrives in two pieces further apart than the read timeout (100 ms default, 3 s quiet); the
+	// second piece is itself a well-formed response naming the other outstanding call
+	add(conf{name: "reply in two pieces 150 ms apart, second piece parses as a response to the other call", callers: 2, timeout: 1000, allOrders: true, extra: "split", gapMs: 150}, 1, false)
+	add(conf{name: "reply in two pieces 350 ms apart, second piece parses as a response to the other call", callers: 2, timeout: 1000, allOrders: true, extra: "split", gapMs: 350}, 0, false)
+	add(conf{name: "reply in two pieces 3.2 s apart (quiet), second piece parses as a response to the other call", callers: 2, timeout: 5000, quiet: true, extra: "split", gapMs: 3200}, 0, false)
 	add(conf{name: "reply cut by a close, next caller reconnects", callers: 2, timeout: 3000, quiet: true, extra: "cut"}, 1, false)
 	add(conf{name: "reply cut by a close, next caller reconnects", callers: 2, timeout: 3000, extra: "cut"}, 1, false)
 	maxI := int32(1<<31 - 1)
